@@ -23,6 +23,20 @@
 // signing key, computes a cryptographically correct signature over exactly the claimed ranges, so
 // that only pdfcpu's range / gap / revision-boundary checks stand between the manipulation and an
 // "unmodified" verdict.
+//
+// H. Later incremental updates that REDEFINE signature objects (sigkit.AppendRedefinition), for
+// every signature of every target (all kinds the harness signs, every shipped sample): a copy of
+// the signature dictionary — all entries kept, /Contents digit for digit — is written either
+// under the same object number or as a new object that the redefined signature field's /V is
+// rebound to, with the entries that select pdfcpu's code paths enumerated in full product:
+// /Type absent | Sig | DocTimeStamp | other value, /SubFilter each of the five sub filters,
+// /ByteRange copied verbatim | adjusted to enclose the new /Contents | old gap with the second
+// range stretched to the new end of file; plus the field alone redefined unchanged. "stale" keeps
+// the old signature value; "resigned" (harness-signed targets) writes a fresh value of the NEW
+// sub filter's kind over exactly the claimed ranges (for a verbatim range into the old gap as well
+// as into the new dictionary, so that gap check and digest both hold). For these cases the oracle
+// reads /ByteRange and /Contents of the NEWEST dictionary the field refers to: positions known from
+// construction, cross-checked against sigkit.LocateSignatures (pdfstrict) on the manipulated file.
 package main
 
 import (
@@ -55,8 +69,13 @@ type target struct {
 type mcase struct {
 	T     int
 	Manip string // key component
-	Note  string
-	Make  func() ([]byte, bool) // false: manipulation not constructible for this target
+	// redefinitions: the violation key names the sub filter WRITTEN (what pdfcpu dispatches on) and
+	// the manipulation without it and without stale/resigned (one defect = few keys)
+	VSub, VManip string
+	Note         string
+	// false: manipulation not constructible for this target. ov: signatures (index into the
+	// target's Sigs) whose newest dictionary the manipulation moved (redefinitions).
+	Make func() (b []byte, ov map[int]sigkit.SigInfo, ok bool)
 }
 
 func main() { vk.Run("C28", "exploration", run) }
@@ -146,7 +165,7 @@ func run(t *vk.T) {
 	}
 
 	t.Assume("Status Valid needs a CRL fetched at validation time (pdfcpu never concludes 'good' from /DSS): harness documents are validated with conf.Offline=false against a CRL served on 127.0.0.1 (allow-listed literal host, DNS disabled); samples with conf.Offline=true")
-	t.Assume("the manipulations never move or redefine a signature dictionary, so the harness knows where /ByteRange and /Contents of every signature are; pdfstrict re-derives the same facts from the manipulated file as a cross-check (disagreement = inconclusive)")
+	t.Assume("the harness knows where /ByteRange and /Contents of the newest dictionary of every signature are (manipulations A-G never move a signature dictionary; redefinitions H write it themselves); pdfstrict re-derives the same facts from the manipulated file as a cross-check (disagreement = inconclusive)")
 
 	// baselines: which signatures CAN be reported unmodified at all
 	seenInc := map[string]bool{}
@@ -159,6 +178,7 @@ func run(t *vk.T) {
 			switch {
 			case unmod(r) && full:
 				t.Count("baseline_full_and_reported_unmodified", 1)
+				t.Count("baseline_reported_unmodified/"+tg.Name, 1)
 			case full:
 				t.Count("baseline_full_but_not_reported_unmodified", 1)
 				if strings.HasPrefix(tg.Name, "harness/") {
@@ -184,9 +204,9 @@ func run(t *vk.T) {
 	vk.Parallel(len(cases), func(i int) {
 		c := cases[i]
 		tg := targets[c.T]
-		b, ok := c.Make()
+		b, ov, ok := c.Make()
 		if !ok {
-			t.Count("not_constructible/"+c.Manip, 1)
+			t.Count("not_constructible/"+countKey(c.Manip), 1)
 			return
 		}
 		o := env.Validate(b, tg.Harness)
@@ -194,13 +214,33 @@ func run(t *vk.T) {
 			t.Count("pdfcpu_panics", 1)
 		}
 		var d *pdfstrict.Doc
-		if dd, err := pdfstrict.Open(b, pdfstrict.Options{}); err == nil {
+		var locs []sigkit.SigLoc
+		if len(ov) > 0 {
+			// redefinition: follow the field tree of the manipulated file to the newest dictionary
+			locs, d, _ = sigkit.LocateSignatures(b)
+		} else if dd, err := pdfstrict.Open(b, pdfstrict.Options{}); err == nil {
 			d = dd
 		}
 		for si := range tg.Sigs {
 			s := &tg.Sigs[si]
+			if sv, ok := ov[si]; ok {
+				s = &sv
+			}
 			full := fullTracked(b, s)
-			if d != nil {
+			if _, redefined := ov[si]; redefined {
+				agreed := false
+				for _, l := range locs {
+					if l.FieldObj == s.FieldObj && l.SigObj == s.SigObj && l.BRStart == s.BRStart && l.CStart == s.CStart && l.CEnd == s.CEnd {
+						agreed = l.FullCoverage(int64(len(b))) == full
+					}
+				}
+				if !agreed {
+					t.Inconclusive("oracle-disagreement/" + c.Manip)
+					continue
+				}
+				t.Count("oracle_crosschecked_by_pdfstrict", 1)
+				t.Count("redefinitions_located_through_field_tree", 1)
+			} else if d != nil {
 				if l, err := sigkit.LocateSigDict(d, s.SigObj); err == nil {
 					if l.FullCoverage(int64(len(b))) != full {
 						t.Inconclusive("oracle-disagreement/" + c.Manip)
@@ -229,7 +269,7 @@ func run(t *vk.T) {
 			if !full {
 				fk = "notfull"
 			}
-			t.Count("manip/"+c.Manip+"/"+fk+"/"+out, 1)
+			t.Count("manip/"+countKey(c.Manip)+"/"+fk+"/"+out, 1)
 			if !full {
 				t.Count("not_full_cases", 1)
 				if r != nil && o.Err == nil && r.Status == model.SignatureStatusValid {
@@ -237,7 +277,14 @@ func run(t *vk.T) {
 				}
 			}
 			if u && !full {
-				t.Violate(fmt.Sprintf("subfilter=%s/manip=%s/class=reported-unmodified", s.SubFilter, c.Manip),
+				vsub, vmanip := tg.Sigs[si].SubFilter, c.Manip
+				if _, redefined := ov[si]; redefined && c.VManip != "" {
+					vsub, vmanip = c.VSub, c.VManip
+				} else if len(ov) > 0 {
+					// an untouched signature of a document in which ANOTHER signature was redefined
+					vmanip = "append-increment-redefining-other-signature"
+				}
+				t.Violate(fmt.Sprintf("subfilter=%s/manip=%s/class=reported-unmodified", vsub, vmanip),
 					fmt.Sprintf("%s sig#%d (%s): byte range %s, /Contents at [%d,%d), file size %d: not full coverage, yet reported %s",
 						tg.Name, si, c.Note, string(b[s.BRStart:s.BREnd]), s.CStart, s.CEnd, len(b), sigenv.Describe(r)),
 					map[string]any{"target": tg.Name, "manip": c.Manip, "note": c.Note, "sig": si})
@@ -258,13 +305,30 @@ func fullTracked(b []byte, s *sigkit.SigInfo) bool {
 	return ok && br[0] == 0 && br[1] == s.CStart && br[2] == s.CEnd && br[2]+br[3] == int64(len(b))
 }
 
+// countKey: redefinitions are counted per (stale|resigned, mode, byte range treatment), not per
+// /Type x /SubFilter combination (those are in the evaluation keys).
+func countKey(manip string) string {
+	if !strings.HasPrefix(manip, "redef-") {
+		return manip
+	}
+	p := strings.Split(manip, "/")
+	if len(p) < 5 {
+		return manip
+	}
+	return p[0] + "/" + p[1] + "/" + p[4]
+}
+
 func clone(b []byte) []byte { return append([]byte(nil), b...) }
 
 func makeCases(t *vk.T, env *sigenv.Env, ti int, tg *target, now time.Time) []mcase {
 	var out []mcase
 	add := func(manip, note string, f func() ([]byte, bool)) {
-		out = append(out, mcase{T: ti, Manip: manip, Note: note, Make: f})
+		out = append(out, mcase{T: ti, Manip: manip, Note: note, Make: func() ([]byte, map[int]sigkit.SigInfo, bool) {
+			b, ok := f()
+			return b, nil, ok
+		}})
 	}
+	addRedefinitions(&out, ti, tg, now)
 	add("none", "untampered", func() ([]byte, bool) { return clone(tg.File), true })
 
 	// A. appended bytes
@@ -393,4 +457,52 @@ func makeCases(t *vk.T, env *sigenv.Env, ti int, tg *target, now time.Time) []mc
 		})
 	}
 	return out
+}
+
+var (
+	redefTypes = []string{"absent", "Sig", "DocTimeStamp", "SigX"}
+	redefSFs   = []string{sigkit.SFDetached, sigkit.SFCAdES, sigkit.SFSHA1, sigkit.SFX509, sigkit.SFDTS}
+)
+
+// addRedefinitions: family H (see the file comment), for every signature of the target.
+func addRedefinitions(out *[]mcase, ti int, tg *target, now time.Time) {
+	harnessSigned := tg.PKI != nil
+	for si := range tg.Sigs {
+		s := tg.Sigs[si]
+		if s.CEnd <= s.CStart || s.BREnd <= s.BRStart {
+			continue
+		}
+		note := fmt.Sprintf("sig=%d", si)
+		mk := func(spec sigkit.RedefSpec, resign bool) func() ([]byte, map[int]sigkit.SigInfo, bool) {
+			return func() ([]byte, map[int]sigkit.SigInfo, bool) {
+				if spec.SubFilter == sigkit.SFX509 && tg.PKI != nil {
+					spec.Cert = tg.PKI.LeafCert.Raw
+				}
+				r, err := sigkit.AppendRedefinition(tg.File, s.FieldObj, s.SigObj, s.BRStart, s.BREnd, s.CStart, s.CEnd, spec)
+				if err != nil {
+					return nil, nil, false
+				}
+				if resign && !sigkit.ResignRedefined(r, spec.BR, tg.PKI, tg.Opts, now) {
+					return nil, nil, false
+				}
+				return r.Bytes, map[int]sigkit.SigInfo{si: r.Sig}, true
+			}
+		}
+		*out = append(*out, mcase{T: ti, Manip: "redef-stale/" + sigkit.RedefFieldVerbatim, Note: note,
+			Make: mk(sigkit.RedefSpec{Mode: sigkit.RedefFieldVerbatim, Type: "keep", BR: sigkit.BRVerbatim}, false)})
+		for _, mode := range []string{sigkit.RedefSameObj, sigkit.RedefFieldNewObj} {
+			for _, typ := range redefTypes {
+				for _, sf := range redefSFs {
+					for _, br := range []string{sigkit.BRVerbatim, sigkit.BRNewContents, sigkit.BROldGapToEOF} {
+						spec := sigkit.RedefSpec{Mode: mode, Type: typ, SubFilter: sf, BR: br}
+						vm := fmt.Sprintf("redef/%s/type=%s/br=%s", mode, typ, br)
+						*out = append(*out, mcase{T: ti, Manip: "redef-stale/" + spec.Key(), Note: note, Make: mk(spec, false), VSub: sf, VManip: vm})
+						if harnessSigned && br != sigkit.BROldGapToEOF {
+							*out = append(*out, mcase{T: ti, Manip: "redef-resigned/" + spec.Key(), Note: note, Make: mk(spec, true), VSub: sf, VManip: vm})
+						}
+					}
+				}
+			}
+		}
+	}
 }
